@@ -175,7 +175,49 @@ PROPS["C06"] = dict(
     level_note="Trusted: Lean kernel, factgen, badger, the clock. The outgoing scan model skips keys recorded after `at` up front (the code skips them one by one without touching its state).",
 )
 
-for _p, _g in (("C07", "store-c07"), ("C19", "store-c19"), ("C12", "store-c12")):
-    PROPS[_p] = dict(modules=[], gens=[_g], rule="", level_text="under construction", level_note="under construction")
+PROPS["C07"] = dict(
+    modules=["Hub.Props.C07"],
+    gens=["store-c07"],
+    rule=STORE_RULE + "mixed with dataset create / delete / rename / re-create (names a-f, shared entity ids and cross-dataset refs), GC runs and store reopen at "
+         "random positions; after every op: listings, feeds, scoped/unscoped/as-of lookups, both query directions and the catalogue (names + meta entities); "
+         "non-trivial = at least 3 versions and 2 queries",
+    trusted=STORE_TRUST + ["the copy-on-write swap of the in-memory deleted map is read without synchronisation by concurrent queries (sampled under C05 only)"],
+    assumptions=["crash points inside create/rename/delete are decided under C04"],
+    level_text="Proof: after DeleteDataset every as-of lookup and every outgoing query answers exactly as if all keys of the dataset were erased (delete_hides_partials, "
+               "delete_hides_outgoing), lookups scoped to other datasets do not change (others_unaffected), GC removes exactly the keys of deleted datasets from the five key "
+               "families and changes no lookup (gc_exact, gc_invisible_lookup, selectors/offsets from regenerated facts), dataset ids are fresh, never shared and never those of a "
+               "deleted dataset so a re-created name starts empty (C19.fresh_ids). The model is compared with the real hub on histories with management ops, GC and reopen.",
+    level_note="Trusted: Lean kernel, factgen, badger. Incoming queries and feeds/listings by name are covered by the correspondence (a deleted name resolves to no dataset).",
+)
+
+PROPS["C19"] = dict(
+    modules=["Hub.Props.C19"],
+    gens=["store-c19"],
+    rule=STORE_RULE + "mixed with dataset create / delete / rename / re-create and reopen; after every op the catalogue: listed names, and for every name ever used (plus an "
+         "unknown one and core.Dataset) the meta entity's deleted flag, name, public namespaces and items counter, compared with the model's registry and distinct-id count; "
+         "non-trivial = at least 3 versions and 2 queries",
+    trusted=STORE_TRUST,
+    assumptions=["concurrent writers to different datasets funnel through core.Dataset under its write lock (lock facts under C05); DeleteDataset does not hold the dataset's lock"],
+    level_text="Proof: the items counter of a dataset equals the length of a duplicate-free enumeration of exactly the ids with at least one version there, in every state reached "
+               "through the write path (items_eq_distinct, items_step — part of the refinement invariant); for every history of create/delete/rename/re-create a name is listed iff "
+               "its meta entity is live, deleted or renamed-away names have deleted meta entities, ids are fresh and unshared (catalogue, fresh_ids). PARTIAL: core.Dataset's own counter "
+               "is never maintained (known finding D22).",
+    level_note="Trusted: Lean kernel, factgen, badger. The meta entities themselves (name, namespaces) are compared by the correspondence.",
+)
+
+PROPS["C12"] = dict(
+    modules=["Hub.Props.C12"],
+    gens=["store-c12"],
+    rule=STORE_RULE + "with legacy duplicate versions injected at random positions (a version written without the write-time equality check, as old hubs did) and deduplicating "
+         "compaction runs with flush thresholds 1, 2, 3, 100000 in between; after every op all read APIs (listing, full and latest-only feeds, lookups now and pinned, both query "
+         "directions) — the model runs its own compaction, so before/after equality and the exact feed are both checked; non-trivial = at least 3 versions and 2 queries",
+    trusted=STORE_TRUST,
+    assumptions=["writers racing the compactor and kills between flushes are not in the quick tier (D14: compaction rewrites latest pointers without the dataset lock)"],
+    level_text="Proof (spec level): removing every version whose content equals the version kept before it preserves the content of the latest version (latest_preserved) and of the "
+               "latest version of every prefix of the history, i.e. of every pinned lookup (pinned_preserved); what remains is an order-preserving sublist without adjacent duplicates "
+               "(feed_sublist, no_adjacent_dups). The key-level model of the compactor (version, change-log, latest-pointer and reference keys) is compared with the real compactor "
+               "on histories with injected duplicates for all flush thresholds; its eval/flush shape is a regenerated fact. PARTIAL for racing writers (finding D14) and kills between flushes.",
+    level_note="Trusted: Lean kernel, factgen, badger. `recorded` of a removed duplicate is replaced by its identical predecessor's and is not compared.",
+)
 
 NOT_YET = {}
